@@ -271,7 +271,12 @@ def fragment_rule(ck, prog):
                 names = g.callee_names_in(w)
                 local_idx = any(x.endswith("EvaluationTableFragment::num_rows") for x in names)
                 if not local_idx:
-                    continue
+                    # a running counter that starts from a constant inside the fragment evaluator (`let mut row = 0; .. row += 1`) is a
+                    # fragment-local position as well: it restarts in every fragment
+                    consts_only = not g.params_in(w) and not g.fields_in(w) and not [x for x in names if not x.startswith(("core::", "alloc::"))]
+                    counts = any(nd[0] == "b" and str(nd[1]).startswith("Add") for nd in w)
+                    if not (consts_only and counts):
+                        continue
                 n += 1
                 ok = any(x.endswith("EvaluationTableFragment::offset") for x in names)
                 ck.ob("F", f"{f.nname.split('::')[-1]}:{cn.split('::')[-1]}:arg{k}", ok,
